@@ -38,7 +38,7 @@ PATTERNS = [None, None, None, r"(?P<value>\d+)", r"id: (\w+)", r"(?s)start.*end"
 
 
 def plan(tier, seed):
-    n = 60 if tier == "quick" else 1500
+    n = 300 if tier == "quick" else 4000
     jobs = [{"i": i, "seed": seed, "n": 6, "flavour": "rel"} for i in range(n)]
     if tier == "thorough":
         jobs += [{"i": i, "seed": seed, "n": 3, "flavour": "tsan"} for i in range(40)]
